@@ -419,12 +419,30 @@ impl Mps {
     pub fn from_zipped_reader(reader: impl Read) -> Result<Self> {
         let buf = flate2::read::GzDecoder::new(reader);
         let buf = io::BufReader::new(buf);
-        Self::from_lines(buf.lines().map_while(|x| x.ok()))
+        Self::from_io_lines(buf.lines())
     }
 
     pub fn from_raw_reader(reader: impl Read) -> Result<Self> {
         let buf = io::BufReader::new(reader);
-        Self::from_lines(buf.lines().map_while(|x| x.ok()))
+        Self::from_io_lines(buf.lines())
+    }
+
+    /// Parse lines coming from a reader. Reading stops at the first I/O error (including a
+    /// corrupted or truncated gzip stream), which is reported instead of being taken for the
+    /// end of the file.
+    fn from_io_lines(lines: impl Iterator<Item = io::Result<String>>) -> Result<Self> {
+        let mut io_error = None;
+        let parsed = Self::from_lines(lines.map_while(|line| match line {
+            Ok(line) => Some(line),
+            Err(e) => {
+                io_error = Some(e);
+                None
+            }
+        }));
+        match io_error {
+            Some(e) => Err(e.into()),
+            None => parsed,
+        }
     }
 
     fn from_lines(lines: impl Iterator<Item = String>) -> Result<Self> {
